@@ -510,4 +510,66 @@ func c11E2E(args []string) {
 		w.Flush()
 		os.RemoveAll(filepath.Join(work, psid))
 	}
+	c11LongKeyProbe(dir, work)
+}
+
+// A key that is a legal directory name (fork_<key> is at most 255 bytes) but
+// long enough that the journal file name of its jobs
+// (<fqname>.fork_<key>.chnkN.u<uniq>.<file>) is not: the job completes, the
+// notification cannot be written, mrp never learns about it.
+func c11LongKeyProbe(dir, work string) {
+	w := hx.Out
+	long := strings.Repeat("k", 225)
+	keys := []string{long, "b"}
+	mro := c11StageDefs + fmt.Sprintf(`
+pipeline P(
+    in  map<string> m,
+    out map<string> r,
+)
+{
+    map call ECHO(
+        what = split self.m,
+    )
+
+    return (
+        r = ECHO.result,
+    )
+}
+
+call P(
+    m = %s,
+)
+`, mroMap(keys, func(k string) string { return mroString("v:" + k) }))
+	psid := "pslong"
+	if err := os.WriteFile(filepath.Join(work, psid+".mro"), []byte(mro), 0o644); err != nil {
+		panic(err)
+	}
+	ctx, cancel := context.WithTimeout(context.Background(), 25*time.Second)
+	cmd := exec.CommandContext(ctx, filepath.Join(dir, "bin", "mrp"), psid+".mro", psid,
+		"--localcores=4", "--localmem=4", "--disable-ui")
+	cmd.Dir = work
+	cmd.Env = append(os.Environ(), "MROPATH="+work)
+	out, err := cmd.CombinedOutput()
+	cancel()
+	raw, _ := os.ReadFile(filepath.Join(work, psid, "P", "fork0", "_outs"))
+	var got interface{}
+	json.Unmarshal(raw, &got)
+	expect := map[string]interface{}{"r": strMap(keys, func(k string) interface{} { return "v:" + k })}
+	switch {
+	case err == nil && reflect.DeepEqual(got, expect):
+		fmt.Fprintf(w, "E2E ok long_key\n")
+	case err != nil && ctx.Err() == context.DeadlineExceeded:
+		_, e := os.Stat(filepath.Join(work, psid, "P", "ECHO", "fork_"+long, "chnk0"))
+		fmt.Fprintf(w, "E2E e2e_journal_name_exceeds_name_max %s long_key: a 225-byte key: no result within 25 s (job directory present: %v)\n",
+			hx.H(mro), e == nil)
+	default:
+		tail := string(out)
+		if len(tail) > 1200 {
+			tail = tail[len(tail)-1200:]
+		}
+		fmt.Fprintf(w, "E2E e2e_long_key_wrong %s long_key: %v: outs %s: %s\n", hx.H(mro), err,
+			strings.Join(strings.Fields(string(raw)), " "), strings.ReplaceAll(tail, "\n", " / "))
+	}
+	w.Flush()
+	os.RemoveAll(filepath.Join(work, psid))
 }
